@@ -343,9 +343,9 @@ class Namer:
                     return "%s_%s" % (name, fp)
                 if recv is not None and recv[0] in ("proj", "field"):
                     return "%s_payload" % name
-            # crate-local constructors used inside constructors: an uninterpreted function of its arguments
+            # crate-local constructors / helpers: an uninterpreted function of its arguments
             if re.match(r"^[A-Za-z_][A-Za-z_0-9]*$", name):
-                return "%s(%s)" % (name, ", ".join(self.sym(a) for a in args if a != ("var", "rng")))
+                return "%s(%s)" % (self.rename.get(name, name), ", ".join(self.sym(a) for a in args if a != ("var", "rng")))
         raise NoForm(fmt(t)[:80])
 
 
@@ -442,6 +442,8 @@ def run_specs(chk, F, specs, floor_n):
     chk.floor("sampler / constructor instances compared with their reference", nfun, floor_n)
     if not jobs:
         return
+    if os.environ.get("VERIF_DUMP_JOBS"):
+        json.dump(jobs, open(os.environ["VERIF_DUMP_JOBS"], "w"))
     r = subprocess.run(["python3-vt", os.path.join(HERE, "symcheck.py")], input=json.dumps(jobs), stdout=subprocess.PIPE, stderr=subprocess.PIPE, text=True, timeout=2400)
     if r.returncode != 0:
         raise SystemExit("symcheck failed: " + r.stderr[-2000:])
@@ -672,6 +674,9 @@ def build_case(chk, F, inst, spec, key, where, jobs, ctx, summ, paths):
                 continue
             accepted.append("(%s) - (%s)" % (xa, xb))
             back.append((k, False))
+        for k, (k2, xa, xb) in enumerate(c["spec_atoms"]):
+            if k2 != want_kind or inf_side:
+                continue
             accepted.append("(%s) - (%s)" % (xb, xa))
             back.append((k, True))
         dterm = (sa_ if sb_ in ("oo", "(-oo)") else sb_) if inf_side else "(%s) - (%s)" % (sa_, sb_)
@@ -735,6 +740,40 @@ def ts_eval(lists, nodes, start, assign, let):
     return None
 
 
+def spec_paths(lists, nodes, start, let, limit=20000):
+    """All paths of the first-match decision lists from `start` to a terminal outcome: [(literals {atom: truth}, outcome)], outcome as in ts_eval."""
+    out = []
+
+    def rec(name, lits, depth):
+        if len(out) > limit or depth > 60:
+            return
+        acc = dict(lits)
+        for a_i, outcome in lists[name]:
+            cur = dict(acc)
+            if a_i is not None:
+                if cur.get(a_i) is False:
+                    continue            # already known false on this path
+                known_true = cur.get(a_i) is True
+                cur[a_i] = True
+            else:
+                known_true = True
+            if outcome.startswith("return "):
+                out.append((cur, ("return", frozenset(subst_let(alt.strip(), let) for alt in outcome[len("return "):].split(" || ")))))
+            elif outcome == "continue":
+                out.append((cur, ("continue",)))
+            else:
+                node, upd = parse_goto(outcome)
+                if node in nodes:
+                    out.append((cur, ("cut", node, {k_: subst_let(v_, let) for k_, v_ in upd.items()})))
+                else:
+                    rec(node, cur, depth + 1)
+            if a_i is None or known_true:
+                return
+            acc[a_i] = False
+    rec(start, {}, 0)
+    return out
+
+
 def build_ts_jobs(chk, F, inst, spec, key, where, jobs, ctx):
     summ = algsum.summarize_ts(F, inst)
     nodes = spec["nodes"]                     # ordered {name: [state variables]} — one per cut point, in block order
@@ -796,13 +835,15 @@ def build_ts_jobs(chk, F, inst, spec, key, where, jobs, ctx):
             continue
         want_kind = "eq" if kind == "eq" else "lt"
         accepted, back = [], []
+        # same orientation first: `m < y` and `y < m` are different tests when equality has positive probability (integers)
         for k, (k2, xa, xb) in enumerate(c["spec_atoms"]):
-            if k2 != want_kind:
-                continue
-            accepted.append("(%s) - (%s)" % (xa, xb))
-            back.append((k, False))
-            accepted.append("(%s) - (%s)" % (xb, xa))
-            back.append((k, True))
+            if k2 == want_kind:
+                accepted.append("(%s) - (%s)" % (xa, xb))
+                back.append((k, False))
+        for k, (k2, xa, xb) in enumerate(c["spec_atoms"]):
+            if k2 == want_kind:
+                accepted.append("(%s) - (%s)" % (xb, xa))
+                back.append((k, True))
         jid = "%s|atom|%d" % (key, i)
         jobs.append({"id": jid, "symbols": spec["symbols"], "term": "(%s) - (%s)" % (sa_, sb_), "accepted": accepted or ["0*0 + 123456789"], "relative": True})
         c["atoms"][i] = (jid, kind, "(%s) - (%s)" % (sa_, sb_), back)
@@ -815,8 +856,9 @@ def build_ts_jobs(chk, F, inst, spec, key, where, jobs, ctx):
                 c["rets"][pi_] = jid
             elif o[0] == "goto":
                 node = cutname.get(o[1])
+                upd_i = {nm.rename.get(k_, k_): t_ for k_, t_ in o[2].items()}
                 for v_ in nodes.get(node, []):
-                    term = nm.sym(o[2][v_]) if v_ in o[2] else v_
+                    term = nm.sym(upd_i[v_]) if v_ in upd_i else v_
                     forms = c["upd_forms"].get((node, v_), [v_])
                     jid = "%s|upd|%d|%s" % (key, pi_, v_)
                     jobs.append({"id": jid, "symbols": spec["symbols"], "term": term, "accepted": forms, "relative": True, "variant_of": 0})
@@ -875,44 +917,47 @@ def judge_ts(chk, key, c, res):
     if und:
         chk.unproved_note("algorithm", key, "not decided: " + und[0])
         return 0
-    nsa = len(c["spec_atoms"])
     nseg = 0
     for cut, node in c["cutname"].items():
         segs = [(pi_, p) for pi_, p in enumerate(paths) if p.get("start") == cut]
-        for assign in itertools.product((False, True), repeat=nsa):
-            so = ts_eval(c["lists"], nodes, node, assign, let)
-            hits = []
-            for pi_, p in segs:
-                okp = True
-                for lit in p["lits"]:
-                    if lit is None or lit[0] == "variant" or lit[0] not in amap:
-                        continue
-                    ia, truth = lit
-                    sa, swapped = amap[ia]
-                    kind = summ["atoms"][ia][0]
-                    val = assign[sa]
-                    holds = val if (kind in ("eq", "flag") or kind.startswith("call:") or not swapped) else not val
-                    if holds != truth:
-                        okp = False
-                        break
-                if okp:
-                    hits.append(pi_)
-            desc = "; ".join("%s: %s" % (cd[:50], "true" if a_ else "false") for cd, a_ in zip(conds, assign))
-            for pi_ in hits:
-                o = paths[pi_]["outcome"]
+        sps = spec_paths(c["lists"], nodes, node, let)
+        for pi_, p in segs:
+            ilits = {}
+            for lit in p["lits"]:
+                if lit is None or lit[0] == "variant" or lit[0] not in amap:
+                    continue
+                ia, truth = lit
+                sa, swapped = amap[ia]
+                kind = summ["atoms"][ia][0]
+                holds = truth if (kind in ("eq", "flag") or kind.startswith("call:") or not swapped) else not truth
+                if ilits.get(sa, holds) != holds:
+                    ilits = None
+                    break
+                ilits[sa] = holds
+            if ilits is None:
+                continue                # infeasible implementation path
+            o = p["outcome"]
+            matched = False
+            for slits, so in sps:
+                if any(ilits.get(a_) is not None and ilits[a_] != t_ for a_, t_ in slits.items()):
+                    continue            # not jointly satisfiable
+                matched = True
                 same = False
-                if so is None:
-                    same = False
-                elif o[0] == "return" and so[0] == "return":
+                if o[0] == "return" and so[0] == "return":
                     same = rform.get(pi_) in so[1]
                 elif o[0] == "goto" and so[0] == "cut":
                     tgt = c["cutname"].get(o[1])
                     same = tgt == so[1] and all(subst_let(so[2].get(v_, v_), let) in uform.get((pi_, v_), set()) for v_ in nodes[tgt])
                 if not same:
+                    desc = "; ".join("%s: %s" % (conds[a_][:50], "true" if t_ else "false") for a_, t_ in sorted({**slits, **ilits}.items()))
                     chk.violation("algorithm", key + ":decision", "%s, at `%s`: when %s the reference gives `%s`, the implementation `%s`" % (
-                        name, node, desc or "(no test)", so, (o[0], c["cutname"].get(o[1]) if o[0] == "goto" else rform.get(pi_))), where=c["where"])
+                        name, node, desc or "(no test)", so if so[0] != "return" else "return " + " || ".join(sorted(so[1])),
+                        ("goto " + str(c["cutname"].get(o[1])) + " " + str({k_: sorted(uform.get((pi_, k_), ["?"]))[0] for k_ in nodes.get(c["cutname"].get(o[1]), [])})) if o[0] == "goto" else rform.get(pi_)), where=c["where"])
                     return 1
-            nseg += len(hits)
+            if not matched:
+                chk.violation("algorithm", key + ":decision", "%s, at `%s`: an implementation path is consistent with no path of the reference" % (name, node), where=c["where"])
+                return 1
+            nseg += 1
     chk.ok("algorithm", "%s: %d cut point(s), %d comparison(s) matched, %d segment(s): same successor, same updates of the state variables, same returned terms on every assignment"
            % (key, len(c["cutname"]), len(amap), len(paths)), nontrivial=True)
     return 1
@@ -983,6 +1028,16 @@ def judge(chk, key, c, res):
                     true_atoms.add(sa)
         if any(len(true_atoms & set(g)) > 1 for g in excl):
             dead.add(pi_)
+        # the same reference test decided both ways on one path (two spellings of one comparison, e.g. 1 - (1 - p) == 1 and p == 1)
+        seen_ = {}
+        for lit in p["lits"]:
+            if lit and lit[0] != "variant" and lit[0] in amap:
+                sa, swapped = amap[lit[0]]
+                kind = summ["atoms"][lit[0]][0]
+                holds = lit[1] if (kind in ("eq", "flag") or kind.startswith("call:") or not swapped) else not lit[1]
+                if seen_.get(sa, holds) != holds:
+                    dead.add(pi_)
+                seen_[sa] = holds
     # C: returned terms
     rmap = {}
     for pi_, (jid, term) in c["rets"].items():
